@@ -66,7 +66,7 @@ EXPECTED_EXTRACTOR_ROWS = [
 ]
 
 PROP = {
-    "lean_modules": ["GunYu.Props.C10", "GunYu.Props.C10Gen", "GunYu.Props.C10Trie"],
+    "lean_modules": ["GunYu.Props.C10", "GunYu.Props.C10Gen", "GunYu.Props.C10Trie", "GunYu.Props.C10Slot"],
     "audit_namespaces": ["GunYu.Props.C10"],
     "required_theorems": [
         "GunYu.Props.C10.rangeLookup_iff",
@@ -105,6 +105,9 @@ PROP = {
         "GunYu.Props.C10.gen_filterCmd_eq_model",
         "GunYu.Props.C10.gen_filterKey_eq_model",
         "GunYu.Props.C10.gen_parseCommandInt_eq_model",
+        # FilterSlot translated each run (its IsSlotInList calls are gofn's translation): the model's slot rule for EVERY key, the empty key (slot 0) included
+        "GunYu.Props.C10.gen_filterSlot_eq_model",
+        "GunYu.Props.C10.keyToSlot_empty",
     ],
     "expected_facts": {
         "output_filter_wiring": EXPECTED_WIRING,
@@ -139,6 +142,8 @@ PROP = {
             "adversarial range sets; commands from both regenerated keyspec tables in random case with arity below/at/above the row, extractor commands in "
             "documented and broken shapes (numkeys 0/too large/non-numeric/leading zeros/up to 19 digits incl. 2^63-1, dangling STORE/BY/GET, STREAMS with odd "
             "tails), 49 well-formed commands with key positions from the Redis command reference (golden), unknown and non-ASCII command names. "
+            "EDGE SLOTS (seeded C11-r8-m1): the EMPTY key (HASH_SLOT 0) and keys steered into slots 0, 1, 16382, 16383 against black / white lists that contain / exclude the end slots, through FilterSlot, FilterCmdKey "
+            "(SET, DEL, MSET, RENAME with a second key of another slot) in both sessions, and corpus/C10/slot_empty_key.txt through the parser loop and both snapshot loops. "
             "Session 5: every (word, longer word with that prefix) pair of 11 pairs inserted in BOTH orders (and around a third word) into each of the four lists and probed with every prefix of the longer word in both cases "
             "(one Trie serves exact and prefix lists); 8 goroutines reading ONE built filter (FilterKey / FilterSlot on own keys, counted budget) compared with the oracle (what = concurrent-filter). "
             "Real code run: RedisKeyFilter bare (session C10); as wired by NewRedisOutput (C10out) - Filter* directly, the parser loop parseAofCommand on "
@@ -172,7 +177,7 @@ PROP = {
         "command names and option words are ASCII (Go folds case with Unicode rules: Kelvin sign, long s; the model folds ASCII only); configured command names are ASCII",
         "numkeys arguments are below 2^63 (parseCommandInt accumulates in an int64 and wraps beyond; a Redis source rejects such counts before propagation)",
         "hand-written model functions (extractor bodies, FilterCmdKey, FilterDb, FilterSlot's two-list combination, the Insert* list loops with their case folding, rdbKeep, configFix) are tied by correspondence "
-        "(the range list, the trie and FilterCmd / FilterKey are now regenerated and proved, see trusted); the parser loop is the C01 model "
+        "(the range list, the trie and FilterCmd / FilterKey / FilterSlot are now regenerated and proved, see trusted); the parser loop is the C01 model "
         "Sender.parseStep instantiated with the concrete filter (pcfgOf) and the bisync parser is the C13 model Bisync.parse, both tied here under generated filter configurations; "
         "the two keyspec tables, the partial-projection list, NoRouteCmds and the reserved prefixes are regenerated from source on every run",
         "every statement of package syncer that consults the filter (file, function, printed condition and guards), the Insert* wiring of NewRedisOutput with its guards, the two "
